@@ -267,6 +267,9 @@ func UpdatePathAggregator4ByteAs(msg *bgp.BGPUpdate) error {
 			case reflect.Uint16:
 				aggAttr = attr
 				aggAttr.Value.Askind = reflect.Uint32
+				// the value grows from 6 to 8 octets: keep the cached
+				// length (Len()) in step with what Serialize() emits
+				aggAttr.Length = 8
 			case reflect.Uint32:
 				aggAttr = attr
 			}
